@@ -118,6 +118,19 @@ def run(chk):
             dist["rejected"] = dist.get("rejected", 0) + 1
             continue
         c = kv(cfg[0])
+        # what the configuration asked for (the cfg op: ch rate nominal max_kbps avg_kbps min_kbps reservoir_bits bias)
+        cop = [o for o in r["ops"] if o.startswith("cfg ")][0].split(" ")
+        want_max, want_avg, want_min, want_rb = int(cop[4]) * 1000, int(cop[5]) * 1000, int(cop[6]) * 1000, int(cop[7])
+        if want_rb > 0 and (want_max > 0 or want_min > 0):
+            half, srate = int(c["bs0"]) // 2, int(c["rate"])
+
+            def rint(x):
+                return int(round(x))          # Python rounds half to even, as rint does in the default mode
+            exp_min, exp_max = rint(want_min * half / srate), rint(want_max * half / srate)
+            if c.get("managed") != "1" or int(c["minb"]) != exp_min or int(c["maxb"]) != exp_max:
+                ofail.append((r, "setup: hard limits max %d / min %d bit/s with a %d bit reservoir were accepted, but the manager runs with managed=%s min_bitsper=%s max_bitsper=%s (expected 1, %d, %d)" % (
+                    want_max, want_min, want_rb, c.get("managed"), c.get("minb"), c.get("maxb"), exp_min, exp_max)))
+                continue
         if c.get("managed") != "1":
             dist["unmanaged"] = dist.get("unmanaged", 0) + 1
             continue
